@@ -277,6 +277,7 @@ func readAll(wire []byte, stopAfter map[int]bool, adj map[int]int, bounds map[in
 	}
 	defer fr.ReleaseWriter()
 	var out []string
+	var kept []keptFrame
 	var ms runtime.MemStats
 	for i := 0; i < maxFrames; i++ {
 		pos := len(wire) - br.Len()
@@ -345,7 +346,10 @@ func readAll(wire []byte, stopAfter map[int]bool, adj map[int]int, bounds map[in
 		}
 		// delta to the declared frame boundary: 0 = the read consumed exactly 8+length bytes
 		l := int(wire[pos+5])<<16 | int(wire[pos+6])<<8 | int(wire[pos+7])
-		out = append(out, fmt.Sprintf("%s@%d%s", renderFrame(f, adj[pos]), consumed-(pos+8+l), big))
+		// the frame is only RENDERED after every frame has been read and the source bytes have been scribbled over
+		// (results must be values of their own: no aliasing with a reused buffer of the Framer or with the input)
+		kept = append(kept, keptFrame{len(out), f, adj[pos]})
+		out = append(out, fmt.Sprintf("@%d%s", consumed-(pos+8+l), big))
 		if stopAfter[pos] {
 			out = append(out, "stop")
 			break
@@ -357,7 +361,19 @@ func readAll(wire []byte, stopAfter map[int]bool, adj map[int]int, bounds map[in
 			break
 		}
 	}
+	for i := range wire {
+		wire[i] ^= 0xa5
+	}
+	for _, k := range kept {
+		out[k.idx] = renderFrame(k.f, k.adj) + out[k.idx]
+	}
 	return strings.Join(out, " ")
+}
+
+type keptFrame struct {
+	idx int
+	f   spdy.Frame
+	adj int
 }
 
 // ---------------------------------------------------------------- rt
